@@ -189,10 +189,46 @@ def state_case(env, d, st):
     st.sample({"key": hex(d), "successors": len(set(succ))})
 
 
+def noncanonical_check_case(env, st):
+    """Taproot tweak check with a tweaked key whose x is tiny (x + p still fits in 32 bytes): the internal key is built as
+    P = Q - t*G from a small-x curve point Q (no secret key needed for the check), t chosen so that P has even y.  The check must
+    accept (Q.x, parity(Q)) and reject the re-encoding Q.x + p: it compares 32 BYTES, not field elements."""
+    L, C = env.L, env.C
+    if C is not SECP:
+        return
+    x = 1
+    found = 0
+    while found < 2:
+        Q = C.lift_x(x)
+        x += 1
+        if Q is None:
+            continue
+        found += 1
+        for Qs in (Q, C.neg(Q)):
+            t = 5
+            while True:
+                Pt = C.add(Qs, C.neg(C.mulG(t)))
+                if Pt is not None and Pt[1] % 2 == 0:
+                    break
+                t += 1
+            xo = buf(64)
+            assert L.xonly_pubkey_parse(L.ctx, xo, b32(Pt[0])) == 1
+            par = Qs[1] & 1
+            for (enc, want, what) in ((Qs[0], 1, "canonical x"), (Qs[0] + C.p, 0, "x + p"), (Qs[0] + 1, 0, "x + 1")):
+                got = L.xonly_pubkey_tweak_add_check(L.ctx, b32(enc), par, xo, b32(t))
+                st.calls += 1
+                st.count("tweak-check-small-x-%s" % ("accept" if want else "reject"))
+                if got != want:
+                    st.fail("xonly_pubkey_tweak_add_check with the tweaked key encoded as %s (x = %d) returned %d, expected %d" % (what, Qs[0], got, want),
+                            {"cfg": L.config, "internal_x": hex(Pt[0]), "tweak": t, "encoding": hex(enc), "parity": par})
+            st.nt(("small-x-check", Qs))
+
+
 def invalid_key_case(env, case, st):
     """operations on invalid secret keys (0, n, ...) must fail and leave nothing usable"""
     L, C = env.L, env.C
     n = C.n
+    noncanonical_check_case(env, st)
     for bad in (0, n, n + 1, 2**256 - 1):
         sk = b32(bad)
         pk = buf(b"\x55" * 64)
